@@ -36,9 +36,17 @@ def cells_equal(a, b):
 
 
 # three-valued meaning of a program on a row: True / False / None (free)
-def cond3(cell, op, const):
+RANKS = {}      # per dataset: ordered categorical column -> {label: position in the category order}
+
+
+def cond3(cell, op, const, rank=None):
     if cell is None:
         return None if op in ("!=", "not in", "~") else False
+    if rank is not None and op in ("<", "<=", ">", ">="):
+        # an ORDERED categorical compares category positions, not label text; a constant that is no category raises
+        if const not in rank or cell not in rank:
+            return None
+        return FL.sat_cond(rank[cell], op, rank[const])
     return FL.sat_cond(cell, op, const)        # None when the comparison raises
 
 
@@ -47,7 +55,7 @@ def prog3(row, dnf):
     for grp in dnf:
         v = True
         for name, op, const in grp:
-            c = cond3(row[name], op, const)
+            c = cond3(row[name], op, const, RANKS.get(name))
             if c is False:
                 v = False
                 break
@@ -248,6 +256,9 @@ def run_dataset(job):
             out["error"] = "%s: %s" % (type(e).__name__, e)
             return out
         rows = frame_to_rows(full)
+        RANKS.clear()
+        RANKS.update({n_: {lab: i for i, lab in enumerate(c_["categories"])} for n_, c_ in spec["cols"].items()
+                      if c_["kind"] == "cat" and c_.get("ordered")})
         allcols = list(full.columns)
         out["sizes"] = [rg.num_rows for rg in pf.row_groups]
         out["nrows"] = len(rows)
@@ -434,13 +445,17 @@ def has_wrong_type(spec, prog):
                 if not FL.text_kind(k) and isinstance(x, str):
                     return True
             if k == "cat" and op in ("<", "<=", ">", ">="):
-                return True        # pandas refuses to order an unordered categorical
+                if not spec["cols"][n].get("ordered") or c not in spec["cols"][n]["categories"]:
+                    return True    # pandas refuses to order an unordered categorical / to compare with a label that is no category
     return False
 
 
 def gen_job(rng, v2=False, want_model=True, nprog=20, nmask=6, nseq=3, flavour=None):
     spec = FL.gen_dataset(rng, sizes=[1, 2, 3, 5, 8, 12], cat=(rng.random() < 0.3)) if flavour is None else FL.gen_dataset_w3(rng, flavour)
     if "c" in spec["cols"]:
+        # ORDERED categoricals whose category order is not the label sort order (generator shuffles the categories): ordering
+        # operators then mean category positions
+        spec["cols"]["c"]["ordered"] = rng.random() < 0.6
         # categorical statistics are C04's open defect: keep them out of the pruning
         spec["stats"] = [c for c in spec["cols"] if c != "c" and c not in spec["partition_on"]] if spec["stats"] is not False else False
     spec["page_size"] = rng.choice([None, 16, 24, 40, 64]) if flavour != "long" else None
@@ -677,7 +692,9 @@ def run(ctx):
                 problems.append(("count-differs", "count(filters, row_filter=True) = %s but the read returned %s rows" % (o["count"], o["len"])))
             if problems:
                 ctx.fail(classify(spec, prog, problems[0][0], cols), case, "; ".join(p[1] for p in problems))
-            if "model" in o and has_wrong_type(spec, prog):
+            if "model" in o and any(op in ("<", "<=", ">", ">=") and spec["cols"].get(n_, {}).get("ordered") for g in prog["groups"] for n_, op, _ in g):
+                ctx.count("model.skipped", "ordering on an ordered categorical (positions; oracle only)")
+            elif "model" in o and has_wrong_type(spec, prog):
                 # a constant of another type than the column (text against an integer-valued directory level, ...): how the
                 # code types such a pair is not modelled row-wise (C08's typing rules decide); outside the grammar
                 ctx.count("model.skipped", "wrong-typed constant, read did not raise")
